@@ -121,11 +121,37 @@ pub fn main() -> i32 {
             let profile: u8 = match args.rest.get(1).map(String::as_str) {
                 Some("minor") => 1,
                 Some("heavy") => 2,
+                Some("promo") => 3,
+                Some("greedy") => 4,
                 _ => 0,
             };
-            for (fen, label) in mates::generate(n, [0x5EED_C12, 0x5EED_C12B, 0x5EED_C12C][profile as usize], profile) {
+            for (fen, label) in mates::generate(n, [0x5EED_C12, 0x5EED_C12B, 0x5EED_C12C, 0x5EED_C12D, 0x5EED_C12E][profile as usize], profile) {
                 println!("{label}\t{fen}");
             }
+            0
+        }
+        "mates-file" => {
+            // debug: judge every "label\tfen" line of a file at depth 3 (fresh cache and after a depth-2 search)
+            let path = args.rest.first().cloned().unwrap_or_default();
+            let text = std::fs::read_to_string(&path).unwrap_or_default();
+            searchrun::quiet_panics();
+            let mut bad = 0;
+            for line in text.lines() {
+                let Some((_, fen)) = line.split_once('\t') else { continue };
+                let Ok(pos) = oracle::Pos::from_fen(fen) else { continue };
+                let c = mates::classify(&pos);
+                for h in [vec![], vec![2u8]] {
+                    for depth in [3u8, 4] {
+                        if let Some((Some(mv), _)) = mates::run_history(fen, &h, depth) {
+                            if let Some(why) = mates::judge_move(&pos, &c, &mv) {
+                                bad += 1;
+                                println!("{fen}\t{h:?} d{depth}\t{why}");
+                            }
+                        }
+                    }
+                }
+            }
+            println!("misjudged {bad}");
             0
         }
         "sched-debug" => {
